@@ -751,6 +751,12 @@ func Document(t *rapid.T, o DocOpts) *DocCase {
 		u.Fragments = []string{ss.Types[0].Name, "x"}
 		u.ResType = ss.Types[0].Name
 		u.ResID = "x"
+
+		// No data (a meta-only or an error answer) may also be the answer to
+		// a request for a collection.
+		if rapid.Bool().Draw(t, "nodata-colurl") {
+			u.Fragments, u.ResID, u.IsCol = u.Fragments[:1], "", true
+		}
 	}
 
 	c.URL = u
